@@ -60,7 +60,11 @@ type c23Scenario struct {
 	//  L  local store applies
 	//  N  store is not leader and knows no leader address  -> proxy reports leader-not-found
 	//  F  store is not leader, forwarding to the leader applies the batch remotely
-	//  X  store is not leader, forwarding fails ("not leader")
+	//  X  store is not leader, forwarding fails with "not leader"
+	//  C  store is not leader, forwarding fails with a transport error ("dial tcp ...: connect: connection refused")
+	//  T  local store fails with raft's "timed out enqueuing operation"
+	//  Q  local store fails with raft's "leadership lost while committing log"
+	// (N, Q, X and C/T reach the four branches by which runQueue classifies a failed attempt)
 	script string
 	// leaderCheck: while the latest attempt ended with N the node knows no leader,
 	// so the handler's own leader check rejects new requests with 503.
@@ -130,9 +134,16 @@ func (m *c23Store) Execute(ctx context.Context, er *command.ExecuteRequest) ([]*
 		mode = st.script[st.attempts]
 	}
 	st.attempts++
-	if mode == 'L' {
+	switch mode {
+	case 'L':
 		st.apply(er, "local")
 		return nil, uint64(len(st.batches)), nil
+	case 'T':
+		st.log = append(st.log, "attempt:enqueue-timeout")
+		return nil, 0, errors.New("timed out enqueuing operation")
+	case 'Q':
+		st.log = append(st.log, "attempt:leadership-lost")
+		return nil, 0, errors.New("leadership lost while committing log")
 	}
 	st.pending = mode
 	return nil, 0, store.ErrNotLeader
@@ -180,6 +191,10 @@ func (m *c23Cluster) Execute(ctx context.Context, er *command.ExecuteRequest, ad
 	if st.pending == 'F' {
 		st.apply(er, "forwarded")
 		return nil, uint64(len(st.batches)), nil
+	}
+	if st.pending == 'C' {
+		st.log = append(st.log, "attempt:forward-connection-refused")
+		return nil, 0, errors.New("dial tcp " + addr + ": connect: connection refused")
 	}
 	st.log = append(st.log, "attempt:forward-failed")
 	return nil, 0, errors.New("not leader")
@@ -515,27 +530,27 @@ func c23Scenarios(thorough bool) []c23Scenario {
 	w := c23Req{n: 1, wait: true}
 	w2 := c23Req{n: 2, wait: true}
 	scs := []c23Scenario{
-		// two clients, batch of two, no failure: same batch or split by the batch timer
-		{name: "2c-w2,nw1-b2", clients: [][]c23Req{{w2}, {nw}}, qcap: 8, batch: 2, qto: 100 * ms, timeDevs: 1},
-		// every request its own batch; the first attempt finds no leader, the retry applies;
+		// two clients, batch of two: same batch or split by the batch timer; the first attempt fails with raft's enqueue time-out
+		{name: "2c-w2,nw1-b2-T", clients: [][]c23Req{{w2}, {nw}}, qcap: 8, batch: 2, qto: 100 * ms, script: "T", timeDevs: 1},
+		// every request its own batch; the first attempt loses leadership while committing, the retry applies;
 		// one wait gives up before the retry (408, still applied), the next request of that client comes later
-		{name: "2c-w1t500+nw1,nw2-b1-N", clients: [][]c23Req{{{n: 1, wait: true, timeout: "500ms"}, nw}, {nw2}}, qcap: 8, batch: 1, qto: 100 * ms, script: "N"},
+		{name: "2c-w1t500+nw1,nw2-b1-Q", clients: [][]c23Req{{{n: 1, wait: true, timeout: "500ms"}, nw}, {nw2}}, qcap: 8, batch: 1, qto: 100 * ms, script: "Q"},
 		// three clients, batch of two + timer, first attempt applied by forwarding to the leader
 		{name: "3c-nw1,nw2,w1-b2-F", clients: [][]c23Req{{nw}, {nw2}, {w}}, qcap: 8, batch: 2, qto: 100 * ms, script: "F"},
 		// the node loses its leader: later requests are refused by the handler's own check
 		{name: "2c-nw1+nw1,w1d-b1-NN-leadercheck", clients: [][]c23Req{{nw, nw}, {{n: 1, wait: true, delay: 150 * ms}}}, qcap: 8, batch: 1, qto: 50 * ms, script: "NN", leaderCheck: true, timeDevs: 1},
-		// a full queue: writers block while runQueue retries after a failed forward
-		{name: "2c-nw1+w1,nw2-cap1-b1-X", clients: [][]c23Req{{nw, w}, {nw2}}, qcap: 1, batch: 1, qto: 100 * ms, script: "X"},
+		// a full queue: writers block while runQueue retries after a forward that hit a dead leader (connection refused)
+		{name: "2c-nw1+w1,nw2-cap1-b1-C", clients: [][]c23Req{{nw, w}, {nw2}}, qcap: 1, batch: 1, qto: 100 * ms, script: "C"},
 		// wait time-out equal to the batch time-out: 200 or 408 by select order
 		{name: "2c-w2t=,nw1-b3", clients: [][]c23Req{{{n: 2, wait: true, timeout: "100ms"}}, {nw}}, qcap: 8, batch: 3, qto: 100 * ms, timeDevs: 1},
 		// delayed clients around the timers: at the instant the batch timer fires, during the retry sleep (wait times out before the retry), after the retry
-		{name: "3c-w1,nw2d100,w1t500d300-b2-N", clients: [][]c23Req{{w}, {{n: 2, delay: 100 * ms}}, {{n: 1, wait: true, timeout: "500ms", delay: 300 * ms}}}, qcap: 8, batch: 2, qto: 100 * ms, script: "N"},
+		{name: "3c-w1,nw2d100,w1t500d300-b2-X", clients: [][]c23Req{{w}, {{n: 2, delay: 100 * ms}}, {{n: 1, wait: true, timeout: "500ms", delay: 300 * ms}}}, qcap: 8, batch: 2, qto: 100 * ms, script: "X"},
 	}
 	if thorough {
 		scs = append(scs,
 			c23Scenario{name: "2c-w1t,nw2+nw1-b1-N", clients: [][]c23Req{{{n: 1, wait: true, timeout: "1100ms"}}, {nw2, nw}}, qcap: 8, batch: 1, qto: 100 * ms, script: "N"},
 			c23Scenario{name: "3c-w1,nw2,w1-b2-XF", clients: [][]c23Req{{w}, {nw2}, {w}}, qcap: 8, batch: 2, qto: 100 * ms, script: "XF"},
-			c23Scenario{name: "3c-nw1,nw2,w1-cap1-b1-N", clients: [][]c23Req{{nw}, {nw2}, {w}}, qcap: 1, batch: 1, qto: 100 * ms, script: "N"},
+			c23Scenario{name: "3c-nw1,nw2,w1-cap1-b1-TC", clients: [][]c23Req{{nw}, {nw2}, {w}}, qcap: 1, batch: 1, qto: 100 * ms, script: "TC"},
 			c23Scenario{name: "3c-w1+nw1,nw2,w2-b2-NX", clients: [][]c23Req{{w, nw}, {nw2}, {w2}}, qcap: 8, batch: 2, qto: 100 * ms, script: "NX"},
 			c23Scenario{name: "3c-nw1+w1,nw1+nw1,w2d-b3-N-leadercheck", clients: [][]c23Req{{nw, w}, {nw, nw}, {{n: 2, wait: true, delay: 120 * ms}}}, qcap: 2, batch: 3, qto: 100 * ms, script: "N", leaderCheck: true},
 		)
@@ -563,7 +578,7 @@ func c23Options(r *kit.Run) vs.Options {
 func TestVerif_C23(t *testing.T) {
 	r := kit.Start(t, "C23", "sched")
 	defer r.Finish()
-	r.Rule("E-SCHED on the real queued-write path (http/service.go and queue/queue.go instrumented from the current tree): Service.ServeHTTP -> queuedExecute -> queue.Queue -> runQueue -> proxy.Proxy.Execute -> recording fake store / cluster client whose first k attempts fail as scripted (leader-not-found, failed forward) and then succeed. Per scenario every schedule of the client threads, the queue goroutine, runQueue, the batch timer, the retry sleep and the wait time-out within the bounds (preemptions P, select-order deviations S, early time advances T) is executed until every request has returned, every accepted statement is applied, and a further 3 s of fake time have passed. Oracle: the applied stream holds exactly the statements of the accepted requests (200, or 408 after a wait time-out), each once, each request contiguous and in its own order, requests in sequence-number order and in each client's program order; a waiting request that got 200 had all its statements applied when the handler returned; refused requests (503) are never applied. distinct = distinct (batching, order, per-request status, attempts) observations; states = happens-before state keys at scheduling decisions summed over shard processes; traces_validated_against_impl = executions re-run from their recorded schedule with identical observation, choice points and state keys")
+	r.Rule("E-SCHED on the real queued-write path (http/service.go and queue/queue.go instrumented from the current tree): Service.ServeHTTP -> queuedExecute -> queue.Queue -> runQueue -> proxy.Proxy.Execute -> recording fake store / cluster client whose first k attempts fail as scripted (leader-not-found, leadership lost while committing, forward answered 'not leader', forward hitting connection refused, raft enqueue time-out: every branch of runQueue's error classification) and then succeed. Per scenario every schedule of the client threads, the queue goroutine, runQueue, the batch timer, the retry sleep and the wait time-out within the bounds (preemptions P, select-order deviations S, early time advances T) is executed until every request has returned, every accepted statement is applied, and a further 3 s of fake time have passed. Oracle: the applied stream holds exactly the statements of the accepted requests (200, or 408 after a wait time-out), each once, each request contiguous and in its own order, requests in sequence-number order and in each client's program order; a waiting request that got 200 had all its statements applied when the handler returned; refused requests (503) are never applied. distinct = distinct (batching, order, per-request status, attempts) observations; states = happens-before state keys at scheduling decisions summed over shard processes; traces_validated_against_impl = executions re-run from their recorded schedule with identical observation, choice points and state keys")
 	opts := c23Options(r)
 	scs := c23Scenarios(r.Thorough())
 	r.Set("bounds", fmt.Sprintf("total deviations (preemptions + select-order deviations + early time advances)<=%d per execution, so preemptions<=%d; early time advances<=1 and only in the scenarios that say so (quick) / in all (thorough)", opts.Deviations, opts.Deviations))
